@@ -36,7 +36,7 @@ ASSUMPTIONS = [
     'a failure showing several known triggers at once is attributed (to the first key) only if neutralising exactly those triggers makes it pass',
 ]
 REQUIRED = [
-    'server.redirected_by_itself_for_a_target_not_in_normal_form',
+    'server.another_connection_receives_its_own_messages_in_between', 'server.redirected_by_itself_for_a_target_not_in_normal_form',
     'server.cut_firstline', 'server.cut_firstline_crlf', 'server.cut_header', 'server.cut_header_crlf', 'server.cut_crlfcrlf',
     'server.cut_continuation_line', 'server.cut_head_body_boundary', 'server.cut_cl_body', 'server.cut_chunk_size_line',
     'server.cut_chunk_data', 'server.cut_chunk_data_crlf', 'server.cut_zero_line', 'server.cut_after_zero_line',
@@ -137,16 +137,40 @@ def _inject(w, ev):
         raise
 
 
-def deliver_server(msgs, cutss):
-    """One connection; message i is delivered in the chunks given by cutss[i].  Returns the observation."""
+NEIGHBOUR_MSGS = [b'POST /zz-neighbour/a HTTP/1.1\r\nHost: n\r\nContent-Length: 9\r\n\r\nNEIGHBOUR',
+                  b'POST /zz-neighbour/b HTTP/1.1\r\nHost: n\r\nTransfer-Encoding: chunked\r\n\r\n4\r\nWXYZ\r\n3\r\nabc\r\n0\r\n\r\n',
+                  b'GET /zz-neighbour/c?x=1 HTTP/1.1\r\nHost: n\r\nX-N: 1\r\n\r\n']
+
+
+def _neighbour_pieces():
+    """The traffic of ANOTHER connection of the same server: its messages arrive in pieces of their own (cut inside the request line, the
+    header block and the body), one piece between any two reads of the connection under test."""
+    while True:
+        for m in NEIGHBOUR_MSGS:
+            cuts = sorted({7, len(m) // 2, len(m) - 3})
+            prev = 0
+            for c in cuts + [len(m)]:
+                yield m[prev:c]
+                prev = c
+
+
+def deliver_server(msgs, cutss, neighbour=False):
+    """One connection; message i is delivered in the chunks given by cutss[i].  Returns the observation.  With ``neighbour`` a second
+    connection of the same server receives messages of its own, piecemeal, in between: what the connection under test is told and is sent
+    does not depend on it."""
     E = env()
     w = E['Wire']()
     E['HTTP'](w).register(w)
     probe = E['ServerProbe']().register(w)
     w.settle()
     s = E['FakeSock']()
+    t = E['FakeSock'](('10.9.9.9', 999)) if neighbour else None
+    pieces = _neighbour_pieces() if neighbour else None
     per = []
     alive = True
+
+    def mine(lo_seen):
+        return [rec for rec in probe.seen[lo_seen:] if not str(rec[1]).startswith('/zz-neighbour/')]
     try:
         for msg, cuts in zip(msgs, cutss):
             if not alive:
@@ -156,27 +180,34 @@ def deliver_server(msgs, cutss):
             chunks = E['cuts_to_chunks'](msg, cuts)
             early = None
             for ci, chunk in enumerate(chunks):
+                if neighbour:
+                    _inject(w, E['read'](t, next(pieces)))
+                    if any(x[0] == 'close' and x[1] is t for x in w.out[m_out:]):
+                        raise Unsettled('the neighbour connection was closed by the server: %r' % b''.join(x[2] for x in w.out[m_out:] if x[0] == 'write' and x[1] is t)[:60])
                 _inject(w, E['read'](s, chunk))
-                if ci < len(chunks) - 1 and early is None and (len(w.out) > m_out or len(probe.seen) > m_seen):
+                out_s = [x for x in w.out[m_out:] if x[1] is s]
+                if ci < len(chunks) - 1 and early is None and (out_s or mine(m_seen)):
                     # something was dispatched / written / closed before the last bytes of the message had arrived
-                    early = {'after_bytes': sum(len(c) for c in chunks[:ci + 1]), 'of': len(msg), 'request_events': len(probe.seen) - m_seen,
-                             'written': b''.join(x[2] for x in w.out[m_out:] if x[0] == 'write')[:80], 'closes': sum(1 for x in w.out[m_out:] if x[0] == 'close')}
-                if any(x[0] == 'close' for x in w.out[m_out:]):
+                    early = {'after_bytes': sum(len(c) for c in chunks[:ci + 1]), 'of': len(msg), 'request_events': len(mine(m_seen)),
+                             'written': b''.join(x[2] for x in out_s if x[0] == 'write')[:80], 'closes': sum(1 for x in out_s if x[0] == 'close')}
+                if any(x[0] == 'close' for x in out_s):
                     alive = False
                     break
             out = w.out[m_out:]
             per.append({
                 'early': early,
-                'events': probe.seen[m_seen:],
+                'events': mine(m_seen),
                 'written': DATE_RE.sub(b'Date: X', b''.join(x[2] for x in out if x[0] == 'write' and x[1] is s)),
-                'closes': sum(1 for x in out if x[0] == 'close'),
-                'foreign_writes': sum(1 for x in out if x[0] == 'write' and x[1] is not s),
+                'closes': sum(1 for x in out if x[0] == 'close' and x[1] is s),
+                'foreign_writes': sum(1 for x in out if x[0] == 'write' and x[1] is not s and x[1] is not t),
                 'exceptions': [getattr(x[0], '__name__', repr(x[0])) for x in w.exceptions[m_exc:]],
             })
         if not alive:
             _inject(w, E['disconnect'](s))
     finally:
         s.close()
+        if t is not None:
+            t.close()
     return per
 
 
@@ -221,8 +252,8 @@ def deliver_client(msgs, cutss):
     return per
 
 
-def deliver(side, msgs, cutss):
-    return deliver_server(msgs, cutss) if side == 'server' else deliver_client(msgs, cutss)
+def deliver(side, msgs, cutss, neighbour=False):
+    return deliver_server(msgs, cutss, neighbour) if side == 'server' else deliver_client(msgs, cutss)
 
 
 # ------------------------------------------------------------------------------------------------
@@ -461,7 +492,7 @@ def neutralise(ctx, case, keys):
 
 def passes(ctx, case):
     ref = ctx.one_piece(case['side'], case['msgs'])
-    obs = deliver(case['side'], case['msgs'], case['cuts'])
+    obs = deliver(case['side'], case['msgs'], case['cuts'], bool(case.get('neighbour')))
     return compare(case['side'], ref, obs) is None
 
 
@@ -482,7 +513,9 @@ def evaluate(ctx, case):
     try:
         check_one_piece(ctx, case)
         ref = ctx.one_piece(side, msgs)
-        obs = deliver(side, msgs, cutss)
+        obs = deliver(side, msgs, cutss, bool(case.get('neighbour')))
+        if case.get('neighbour') and side == 'server':
+            b.reached('server.another_connection_receives_its_own_messages_in_between')
     except Unsettled as e:
         b.inconclusive_because('tree did not settle: %s' % e)
         return
@@ -704,6 +737,11 @@ def expand(side, msgs, flags, tier, rng=None, k_random=0, all_at_once=True):
             for _ in range(max(2, k_random)):
                 cases.append(dict(flags, side=side, msgs=list(msgs),
                                   cuts=[sorted(rng.sample(range(1, len(m)), rng.randint(1, min(5, len(m) - 1)))) for m in msgs]))
+    if side == 'server':
+        # every fifth segmentation once more while ANOTHER connection of the same server receives messages of its own, piecemeal, in between
+        # (and the all-at-once ones): what this connection is told and sent does not depend on the neighbour
+        again = cases[::5] + [c for c in cases[-3:] if sum(1 for x in c['cuts'] if x) > 1]
+        cases += [dict(c, neighbour=True) for c in again]
     return cases
 
 
